@@ -267,7 +267,7 @@ def _job(led, j):
     model, pdC, pdT = j
     pay = dict(m1=2, m2=2, n2=2, r2=250., H=500., alphadeg=15., laminaprop=[123.55e3, 8.708e3, 0.319, 5.695e3, 5.695e3, 5.695e3],
                stack=[30, -30, 45], plyt=0.125, model=model, pdC=pdC, pdT=pdT, T=1000., P=(0. if 'fsdt' in model else 0.05),
-               Nxxtop=[10., 1., 2., 3., 4.], forces=[[100., 30., 1., 2., 3.]])
+               Nxxtop=[10., 1., 2., 3., 4.], forces=[[100., 30., 1., 2., 3.]], uTM=0.4, thetaTdeg=1.2)
     if model.startswith('iso_'):
         pay['iso'] = [71e3, 0.33, 2.]
     try:
